@@ -116,7 +116,7 @@ func init() {
 	core.Register(&core.Prop{
 		ID:    "C12",
 		Level: "exploration",
-		Rule: "cases: one patch (9 patches incl. a described change that matches only where its replacement cannot stand, multi-change, import-adding, import-removing with shadowing locals, described) x 1-12 generated/corpus files (layouts incl. CRLF, no final newline, long lines; an unparseable file mixed in) x flag set from {--skip-import-processing, --skip-generated, -v}; a fourth run passes --diff and --print-only together (either order) and must not write either; " +
+		Rule: "cases: one patch (9 patches incl. a described change that matches only where its replacement cannot stand, multi-change, import-adding, import-removing with shadowing locals, described) x 1-12 generated/corpus files (layouts incl. CRLF, no final newline, blank lines at the end, long lines; an unparseable file mixed in) x flag set from {--skip-import-processing, --skip-generated, -v}; a fourth run passes --diff and --print-only together (either order) and must not write either; " +
 			"the same inputs are run in place, with --print-only and with --diff on separate scratch copies, every 4th case with the dry runs under strace -f, plus the library API. Monitors: (1) syscall monitor: in dry-run modes the set of mutating syscalls " +
 			"(open for write/create/truncate, write to a file descriptor other than stdout/stderr, rename, unlink, mkdir, chmod, utimensat, ...) must be empty; (2) tree digest (names, bytes, inode, mtime, ctime) identical before/after a dry run; " +
 			"(3) agreement: in-place bytes == --print-only bytes == strict application of the printed unified diff == library bytes; descriptions on stderr only and only for rewritten files. non-trivial = >=1 file of the run is rewritten; distinct = (flag set, files-per-run class, patch, layouts).",
@@ -218,6 +218,11 @@ func runC12(ctx *core.Ctx, idx int) *core.Result {
 			if pi == 0 && r.Intn(2) == 0 {
 				// the whole file on one line: the rewritten file shares no line with it
 				src, layout = "package p; func oneLiner() int { return bump(1) }\n", "one-line-file"
+			}
+		case 8:
+			if r.Intn(2) == 0 {
+				// blank lines behind the last declaration: the printer drops them, the diff has to say so
+				src, layout = src+strings.Repeat("\n", 1+r.Intn(3)), "trailing-blank-lines"
 			}
 		}
 		if layout != "unparseable" && !gen.Parses(src) {
